@@ -2233,9 +2233,10 @@ static void DecodeADJNZ_SBJNZ(Word IsSBJNZ) {
 
                 OpSize2 = OpSize;
                 OpSize  = 0;
-                DecodeAdr(&ArgStr[1], MModImm, &SrcAdrResult);
-                /* TODO: ChkRes */
-                Num1 = ImmVal(&DestAdrResult);
+                if (DecodeAdr(&ArgStr[1], MModImm, &SrcAdrResult) != ModImm) {
+                    return;
+                }
+                Num1 = ImmVal(&SrcAdrResult);
                 if (mFirstPassUnknown(SrcAdrResult.ImmSymFlags)) {
                     Num1 = 0;
                 }
